@@ -19,6 +19,7 @@ package c42
 
 import (
 	"bytes"
+	"encoding/binary"
 	"fmt"
 	"io"
 	"math/rand/v2"
@@ -224,7 +225,9 @@ func run(c *vf.Ctx) {
 	mitm(c)
 	dataFaults(c)
 	concurrentWriters(c)
+	writeFaults(c)
 
+	c.RequireCounter("write_fault_cases", int64(c.N(60, 600)))
 	c.RequireCounter("honest_connections", int64(c.N(150, 1500)))
 	c.RequireCounter("honest_multi_frame_streams", 50)
 	c.RequireCounter("interop_connections", 20)
@@ -962,3 +965,82 @@ func paddingLeak(c *vf.Ctx) {
 		a.Close()
 	}
 }
+
+// ---------------------------------------------------------------- transport write errors
+//
+// A transport write of a sealed frame fails after part of it reached the wire (deadline
+// expiring mid-frame); the application writes again on the same connection. A passive
+// observer of everything handed to the transport must not be able to relate two frames:
+// c_i XOR c_j == p_i XOR p_j means both were encrypted under one (key, nonce).
+func writeFaults(c *vf.Ctx) {
+	r := c.Rng(90_000)
+	for i := 0; i < c.N(60, 600); i++ {
+		tag := fmt.Sprintf("write-fault/%d/%d", c.Seed, i)
+		p, ok := connect(c, tag)
+		if !ok {
+			continue
+		}
+		c.Case(tag, true)
+		c.Count("write_fault_cases", 1)
+		p.ab.mu.Lock()
+		base := len(p.ab.attempts)
+		p.ab.failAt = len(p.ab.writes) + r.IntN(3)
+		p.ab.failKeep = []int{0, 1, 600, frameSealed - 1}[r.IntN(4)]
+		p.ab.mu.Unlock()
+		var plain [][]byte
+		nw := 3 + r.IntN(4)
+		failed := 0
+		for k := 0; k < nw; k++ {
+			data := make([]byte, 1+r.IntN(frameData)) // one frame per Write call
+			for j := range data {
+				data[j] = byte(r.IntN(256))
+			}
+			var frame [framePlain]byte
+			binary.LittleEndian.PutUint32(frame[:4], uint32(len(data)))
+			copy(frame[4:], data)
+			plain = append(plain, frame[:])
+			var err error
+			if pv := vf.Try(func() { _, err = p.sa.Write(data) }); pv != nil {
+				c.Violation("panic:Write-after-transport-error", map[string]any{"case": tag}, "Write panicked: %v", pv)
+				break
+			}
+			if err != nil {
+				failed++
+			}
+		}
+		p.ab.mu.Lock()
+		att := append([][]byte{}, p.ab.attempts[base:]...)
+		p.ab.mu.Unlock()
+		c.Count("write_fault_frames_observed", len(att))
+		if failed > 0 {
+			c.Count("write_fault_errors_returned", 1)
+		}
+		if len(att) != len(plain) {
+			// a Write that produced no transport write (refused after the error) is fine; align by count
+			plain = plain[:min(len(plain), len(att))]
+			att = att[:len(plain)]
+		}
+		for a := 0; a < len(att); a++ {
+			for b := a + 1; b < len(att); b++ {
+				if len(att[a]) != frameSealed || len(att[b]) != frameSealed {
+					continue
+				}
+				same := true
+				for x := 0; x < framePlain; x++ {
+					if att[a][x]^att[b][x] != plain[a][x]^plain[b][x] {
+						same = false
+						break
+					}
+				}
+				c.Count("write_fault_frame_pairs_compared", 1)
+				if same {
+					c.Violation("keystream-reused-after-transport-write-error", map[string]any{"case": tag, "seed": c.Seed, "frames": []int{a, b}, "failed_write_index": p.ab.failAt, "bytes_on_wire_of_failed_write": p.ab.failKeep},
+						"frames %d and %d handed to the transport after the handshake satisfy c1 XOR c2 == p1 XOR p2 over all %d plaintext bytes: both were sealed with the same key and nonce (the transport write of frame index %d had failed after %d bytes)", a, b, framePlain, p.ab.failAt-p.hsWritesAB(), p.ab.failKeep)
+				}
+			}
+		}
+		p.close()
+	}
+}
+
+func (p *pair) hsWritesAB() int { return 0 }
